@@ -55,8 +55,10 @@ type scanScenario struct {
 	renew time.Duration
 	think time.Duration
 	// cellblocks compressed (CompressionCodec); empty responses flagged heartbeat_message
-	snappy bool
-	hbFlag bool
+	snappy     bool
+	hbFlag     bool
+	zeroID     bool // the first region scanner the servers open gets the id 0
+	emptyFirst bool // responses with results begin with an empty fragment (a result of no cells flagged partial)
 }
 
 type scanRun struct {
@@ -102,6 +104,7 @@ func runScan(sc scanScenario) scanRun {
 		cl.AddServer(h)
 	}
 	cl.CreateTable("t", sc.splits, hosts)
+	cl.ZeroScanID = sc.zeroID
 	rowsJ := []map[string]any{}
 	for _, r := range sc.rows {
 		cells := make([]verifsim.KV, r.N)
@@ -138,6 +141,7 @@ func runScan(sc scanScenario) scanRun {
 		}
 		prevHB = cut.Entries == 0
 		cut.Heartbeat = sc.hbFlag
+		cut.EmptyFirst = sc.emptyFirst && !sc.partial && resp%2 == 0 // (a user who asked for partial results is handed whatever comes)
 		if sc.earlyAtResp == resp {
 			cut.CutLastAfter = 0 // a server ends a scan at a row boundary only
 			if ctx.CurRowCells > 0 && ctx.Remaining > 0 && cut.Entries == 0 {
@@ -388,7 +392,7 @@ func TestVerifScan(t *testing.T) {
 			for {
 				sc := base
 				sc.script = append([]int{}, script...)
-				sc.snappy, sc.hbFlag = count%2 == 1, (count/2)%2 == 1
+				sc.snappy, sc.hbFlag, sc.zeroID, sc.emptyFirst = count%2 == 1, (count/2)%2 == 1, count%3 == 0, count%5 == 2
 				sc.name = fmt.Sprintf("small/%d/partial=%v/script=%v/snappy=%v,hb=%v", si, partial, script, sc.snappy, sc.hbFlag)
 				if endings {
 					// every script is also run with two of the ways to end, rotating kind and position
@@ -525,6 +529,7 @@ func TestVerifScan(t *testing.T) {
 				sc.earlyAtResp = 1 + rng.Intn(4)
 			}
 		}
+		sc.zeroID, sc.emptyFirst = k%3 == 0, k%5 == 2
 		sc.snappy, sc.hbFlag = k%2 == 1, (k/2)%2 == 1 // (not drawn from rng: the scenarios stay those of earlier runs)
 		sc.name = fmt.Sprintf("random/%d", k)
 		do(sc)
